@@ -68,10 +68,10 @@ class C16(Check):
         labs = states.labels_of(st)
         fz = states.freeze(st)
         stubs.install_linalg(det=stubs.det_exact, slogdet=logdet.slogdet_stub)
+        c.notes.update({'T': T, 'K': K, 'n': n, 'labels': labs})
         ok, res = guarded(c, 'bic_matches_definition', Rp.metrics.bayesian_information_criterion, st)
         if not ok:
             return
-        c.notes.update({'T': T, 'K': K, 'n': n, 'labels': labs})
         c.outputs['bic'] = None
         thr = core._const_real(2e-5)
         cnt = []
